@@ -297,6 +297,11 @@ func (w *World) Genesis(a *app.App) map[string]json.RawMessage {
 	var slg slashingtypes.GenesisState
 	cdc.MustUnmarshalJSON(gs[slashingtypes.ModuleName], &slg)
 	slg.SigningInfos = signing
+	// a short liveness window so that a validator that misses a handful of blocks really is slashed for downtime (1 %),
+	// jailed for a minute and can come back: the only way a BONDED validator gets shares worth less than one token
+	slg.Params.SignedBlocksWindow = 12
+	slg.Params.MinSignedPerWindow = math.LegacyNewDecWithPrec(5, 1)
+	slg.Params.DowntimeJailDuration = time.Minute
 	gs[slashingtypes.ModuleName] = cdc.MustMarshalJSON(&slg)
 
 	// bank
